@@ -295,7 +295,26 @@ func runC43(c *core.Ctx) {
 			}
 			return succ == 0
 		}
-		esc, path := core.PathQ{Fn: fn, Via: isAdd, ViaEdge: casEdge, Target: core.AnyReturn}.Escape()
+		// ... or a method of the throttler every return of which has
+		via := func(in ssa.Instruction) bool {
+			if isAdd(in) {
+				return true
+			}
+			cc := core.CallOf(in)
+			if cc == nil || cc.StaticCallee() == nil || cc.StaticCallee().Blocks == nil || cc.StaticCallee().Pkg != fn.Pkg || cc.StaticCallee() == fn {
+				return false
+			}
+			h := cc.StaticCallee()
+			if len(core.CallsIn(h, func(x ssa.Instruction, _ *ssa.CallCommon) bool { return isAdd(x) })) == 0 {
+				return false
+			}
+			esc, _ := core.PathQ{Fn: h, Via: isAdd, ViaEdge: casEdge, Target: core.AnyReturn}.Escape()
+			if esc == nil {
+				c.Analysed(fname(h))
+			}
+			return esc == nil
+		}
+		esc, path := core.PathQ{Fn: fn, Via: via, ViaEdge: casEdge, Target: core.AnyReturn}.Escape()
 		c.Check(esc == nil, "C43/counter-atomic", "NumGoRoutinesThrottler."+mname+"/always-counts", fn.Pos(),
 			"every return has changed the counter by one (atomic add or successful compare-and-swap)",
 			mname+" can return without changing the counter ("+c.P.PathString(path)+"): starts and ends no longer cancel out, the counter drifts away from the number of running tasks and admission goes wrong")
